@@ -138,9 +138,18 @@ fn fixed_key(b: u8) -> SecretKey {
 	SecretKey::from_slice(&secp, &[b; 32]).unwrap()
 }
 
+/// label of the existing account that is NOT the active one (set-up creates "acct1" next to "default")
+fn other_account(r: &Roles) -> String {
+	if r.active == "" || r.active == "default" {
+		"acct1".to_string()
+	} else {
+		"default".to_string()
+	}
+}
+
 fn send_args(v: &str, r: &Roles) -> InitTxArgs {
 	InitTxArgs {
-		src_acct_name: None,
+		src_acct_name: if v == "src" { Some(other_account(r)) } else { None },
 		amount: if v == "toomuch" { 1_000_000 * U } else { 1000 * U },
 		minimum_confirmations: 1,
 		max_outputs: 500,
@@ -199,6 +208,9 @@ pub fn do_call(
 			let o = guarded(|| api.set_active_account(tok, label));
 			if let Outcome::Ok(_) = &o {
 				r.active = label.to_string();
+				if commit {
+					w.wallets.get_mut("w1").unwrap().active = label.to_string();
+				}
 			}
 			fin(&o, |_| Value::Null)
 		}
@@ -242,7 +254,8 @@ pub fn do_call(
 			fin(&o, slate_proj)
 		}
 		"issue_invoice_tx" => {
-			let args = IssueInvoiceTxArgs { dest_acct_name: None, amount: 700 * U, target_slate_version: None };
+			let dest = if v == "dest" { Some(other_account(r)) } else { None };
+			let args = IssueInvoiceTxArgs { dest_acct_name: dest, amount: 700 * U, target_slate_version: None };
 			let o = guarded(|| api.issue_invoice_tx(tok, args));
 			if let Outcome::Ok(s) = &o {
 				r.n += 1;
@@ -257,6 +270,7 @@ pub fn do_call(
 		"process_invoice_tx" => {
 			let sl = stage(w, &r.pay, &["I1"]).unwrap_or_else(|| blank(SlateState::Invoice1));
 			let args = InitTxArgs {
+				src_acct_name: if v == "src" { Some(other_account(r)) } else { None },
 				amount: sl.amount,
 				minimum_confirmations: 1,
 				max_outputs: 500,
